@@ -447,3 +447,48 @@ func (w *genWalker) rewriteRange(r *ast.RangeStmt, m *types.Map, stack []ast.Nod
 	w.es.insert(w.off(r.Body.Rbrace)+1, " }")
 	w.needHook = true
 }
+
+// RewriteDependency routes the map iterations of a copied dependency (its own module rooted at dir) through the
+// same hook, so that the order in which e.g. the OpenAPI loader walks its maps comes off the tape as well.
+// Only range-over-map statements and x/exp maps.Keys/Values calls are rewritten; site keys get the given prefix.
+func RewriteDependency(dir, pattern, prefix string, startID int) ([]Site, error) {
+	pkgs, err := loadPkgs(dir, pattern)
+	if err != nil {
+		return nil, err
+	}
+	rep := &GenReport{}
+	nextID := startID
+	for _, pkg := range pkgs {
+		perIter := pkg.Module != nil && goVersionAtLeast(pkg.Module.GoVersion, 1, 22)
+		files := append([]*ast.File(nil), pkg.Syntax...)
+		sort.Slice(files, func(i, j int) bool {
+			return pkg.Fset.Position(files[i].Pos()).Filename < pkg.Fset.Position(files[j].Pos()).Filename
+		})
+		for _, f := range files {
+			fn := pkg.Fset.Position(f.Pos()).Filename
+			if !strings.HasSuffix(fn, ".go") || strings.HasSuffix(fn, "_test.go") || !strings.HasPrefix(fn, dir) {
+				continue
+			}
+			rel, _ := filepath.Rel(dir, fn)
+			src, err := os.ReadFile(fn)
+			if err != nil {
+				return nil, err
+			}
+			es := &editSet{src: src}
+			w := &genWalker{pkg: pkg, file: f, rel: prefix + rel, es: es, rep: rep, nextID: &nextID, perIter: perIter, hookPath: RTBase + "/verifhook"}
+			w.runRangesOnly()
+			if !w.needHook {
+				continue
+			}
+			es.insert(w.off(f.Name.End()), `; import verifhook "`+w.hookPath+`"`)
+			out, err := es.apply()
+			if err != nil {
+				return nil, fmt.Errorf("%s: %w", rel, err)
+			}
+			if err := os.WriteFile(fn, out, 0o644); err != nil {
+				return nil, err
+			}
+		}
+	}
+	return rep.Sites, nil
+}
